@@ -77,6 +77,7 @@ mod __verif_c41 {
     // @bounds body of 3 symbolic bytes, split into 1 or 2 chunks at EVERY cut point 0..=3 (the cut is iterated concretely, the bytes are symbolic: CR, LF, digits, anything), no chunk extensions, terminating `0 CRLF CRLF`
     // @oracle dechunk(encode(body, cut)) == Some(body)
     // @out bodies longer than 3 bytes, more than 2 chunks, multi-digit chunk sizes other than the 16-digit case below
+    // @unwindset metastore::gravitino::dechunk:4
     #[kani::proof]
     #[kani::unwind(8)]
     fn roundtrip_every_split_of_3_bytes() {
@@ -90,6 +91,7 @@ mod __verif_c41 {
     // @encodes metastore::gravitino::dechunk
     // @bounds one chunk of 2 symbolic bytes whose size line carries a chunk extension (`2;x`), then the terminating chunk
     // @oracle RFC 9112 7.1.1: a recipient MUST ignore unrecognised chunk extensions, so the body decodes
+    // @unwindset metastore::gravitino::dechunk:3
     #[kani::proof]
     #[kani::unwind(8)]
     fn roundtrip_with_chunk_extension() {
@@ -99,7 +101,7 @@ mod __verif_c41 {
         put_chunk(&mut buf, &mut n, &body, true, false);
         put(&mut buf, &mut n, b"0\r\n\r\n");
         let got = dechunk(&buf[..n]);
-        kani::cover!(n == 13);
+        kani::cover!(got.is_some());
         assert!(same(&got, &body), "C41.roundtrip_with_extension");
         std::mem::forget(got);
     }
@@ -121,6 +123,7 @@ mod __verif_c41 {
     // @encodes metastore::gravitino::dechunk
     // @bounds one chunk of 10, 12 or 15 bytes (concrete zero payload), size written as ONE hex digit in symbolic case (a/A, c/C, f/F)
     // @oracle hex sizes decode in either case: the body has the declared length
+    // @unwindset metastore::gravitino::dechunk:3 run_utf8_validation:3 is_whitespace:3 from_ascii_bytes_radix_impl:3 CharSearcher:3 memchr:4
     #[kani::proof]
     #[kani::unwind(18)]
     fn hex_sizes_in_either_case() {
@@ -146,6 +149,7 @@ mod __verif_c41 {
     // @encodes metastore::gravitino::dechunk
     // @bounds declared size d in 1..=3 followed by FEWER than d + 2 bytes, every shortfall (all 9 (d, have) pairs iterated concretely, the bytes themselves symbolic): a body cut short anywhere inside the chunk or its CRLF
     // @oracle truncated chunk data is rejected (None), never returned as a shorter body
+    // @unwindset metastore::gravitino::dechunk:3
     #[kani::proof]
     #[kani::unwind(8)]
     fn truncated_chunk_is_rejected() {
@@ -164,6 +168,7 @@ mod __verif_c41 {
     // @encodes metastore::gravitino::dechunk
     // @bounds one chunk of 1 byte whose data is followed by two symbolic bytes that are NOT CRLF, then a well-formed terminating chunk
     // @oracle malformed framing (chunk data not terminated by CRLF) is rejected
+    // @unwindset metastore::gravitino::dechunk:3
     #[kani::proof]
     #[kani::unwind(8)]
     fn chunk_data_must_end_with_crlf() {
@@ -208,6 +213,7 @@ mod __verif_c41 {
     // @encodes metastore::gravitino::dechunk
     // @bounds size line = 16 symbolic hex digits (any size >= 2^60, e.g. ffffffffffffffff and fffffffffffffffe), CRLF, then 0 or 2 symbolic bytes
     // @oracle no panic (no overflow in `size + 2`, no out-of-range slice); a declared size larger than what follows is rejected
+    // @unwindset metastore::gravitino::dechunk:2 is_whitespace:3 CharSearcher:3
     #[kani::proof]
     #[kani::unwind(20)]
     fn huge_declared_size_does_not_panic() {
@@ -219,6 +225,7 @@ mod __verif_c41 {
     // @encodes metastore::gravitino::dechunk
     // @bounds size line = 17 symbolic hex digits with a non-zero leading digit (a size >= 2^64 that no usize can hold), CRLF, then `hello CRLF 0 CRLF CRLF`
     // @oracle a chunk size that does not fit in usize is malformed framing: rejected, never reduced modulo 2^64 (which would make 10000000000000005 decode as 5, or 10000000000000000 look like the terminator)
+    // @unwindset metastore::gravitino::dechunk:2 is_whitespace:3 CharSearcher:3
     #[kani::proof]
     #[kani::unwind(20)]
     fn size_beyond_usize_is_rejected_not_wrapped() {
